@@ -1000,6 +1000,21 @@ func (f *Fam) checkTx(before, after *Snapshot, r string, bz []byte, msg sdk.Msg,
 		if !same {
 			fail("readonly", "C11:"+t.mode+"-changed-state", fmt.Sprintf("%s of a %s transaction changed the state", t.mode, t.kind))
 		}
+		// CheckTx and Simulate run the ante handler too (a simulation skips only the signature): what they accept has
+		// offered the required fee, and what CheckTx accepts is signed by the declared signer's key over the bytes sent
+		if r == "ok" && signer != "" {
+			if t.feeEff().LT(f.requiredFee(before, t.kind)) {
+				fail("fee-required", "C03:fee-below-required-accepted", fmt.Sprintf("%s of a %s tx with fee %s < required %s passed the ante handler", t.mode, t.kind, t.feeEff(), f.requiredFee(before, t.kind)))
+			}
+			if t.mode == "check" {
+				if hx(Keys[t.signer].Addr) != signer {
+					fail("signer-key", "C03:wrong-key-accepted", fmt.Sprintf("CheckTx: %s tx declared signer %s but was signed by key %s and passed the ante handler", t.kind, signer, hx(Keys[t.signer].Addr)))
+				}
+				if t.mut != "none" && t.mut != "" {
+					fail("signed-fields", "C03:mutated-tx-accepted", fmt.Sprintf("CheckTx: %s tx mutated after signing (%s) passed the ante handler", t.kind, t.mut))
+				}
+			}
+		}
 		return
 	}
 	hash := fmt.Sprintf("%x", tmtypes.Tx(bz).Hash())
